@@ -12,9 +12,13 @@ EDITS = ['tracks.append', 'tracks.insert', 'del tracks[i]', 'tracks[i]=', 'track
 
 def _mk_track(cx, mido, tag, n, with_tempo=False):
     tr = mido.MidiTrack()
+    eot_inside = n < 0
+    n = abs(n)
     for i in range(n):
         d = cx.int('%sdt%d' % (tag, i), 0, D20)
-        if with_tempo and i == 0:
+        if eot_inside and i == n - 2:
+            tr.append(mido.MetaMessage('end_of_track', time=d))       # an end_of_track that is not the last message
+        elif with_tempo and i == 0:
             tr.append(mido.MetaMessage('set_tempo', tempo=[250000, 1000000][cx.choice(tag + 'tempo', 2)], time=d))
         else:
             tr.append(mido.Message('note_on', note=cx.int('%snote%d' % (tag, i), 0, 127), time=d))
@@ -155,7 +159,7 @@ def cache_step(cx, shape, pre, edits, post):
     """observe (or not), edit(s), observe: must equal the same observation on a
     freshly built MidiFile with the same contents."""
     import mido
-    tracks = [_mk_track(cx, mido, 't%d_' % i, n, with_tempo=(i == 0 and n > 0)) for i, n in enumerate(shape)]
+    tracks = [_mk_track(cx, mido, 't%d_' % i, n, with_tempo=(i == 0 and abs(n) > 0)) for i, n in enumerate(shape)]
     mid = mido.MidiFile(type=1, ticks_per_beat=96, tracks=tracks)
     public = set(vars(mido.MidiFile(type=1)))
     if pre != 'none':
@@ -180,7 +184,7 @@ def cache_step(cx, shape, pre, edits, post):
 
 BOUNDS = {
     'quick': 'files of 0..2 tracks x 0..2 messages (deltas in 0..300 and notes symbolic, a set_tempo from a menu), every pre-observation in '
-             '{none, iterate, length, play} (thorough: also merged_track, save) x every one of 17 documented edits (track index, message index '
+             '{none, iterate, length, play, save} (thorough: also merged_track); one shape has an end_of_track inside the track; x every one of 17 documented edits (track index, message index '
              'and new values symbolic) x every post-observation, compared with a freshly built file; selected two-edit histories',
     'thorough': 'all ordered pairs of edits between observations',
 }
@@ -191,15 +195,16 @@ ASSUMPTIONS = ['exact-real model for the seconds in iterate/length/play', 'play(
 
 def JOBS(tier):
     jobs = []
-    shapes = [[], [1], [2, 1]] if tier == 'quick' else [[], [0], [1], [2], [2, 1], [1, 2]]
+    # (a negative count = that many messages with an end_of_track before the last one)
+    shapes = [[], [1], [2, 1], [-3]] if tier == 'quick' else [[], [0], [1], [2], [2, 1], [1, 2], [-3], [-2, 1]]
     for sh in shapes:
         for e in EDITS:
-            for pre in (['none', 'iterate', 'length', 'play'] if tier == 'quick' else ['none'] + OBS):
+            for pre in (['none', 'iterate', 'length', 'play', 'save'] if tier == 'quick' else ['none'] + OBS):
                 for post in OBS:
                     if tier == 'quick' and sh == [] and pre not in ('none', 'iterate'):
                         continue
                     jobs.append((cache_step, {'shape': sh, 'pre': pre, 'edits': [e], 'post': post},
-                                 {'width': 0, 'cost': 1 + sum(sh)}))
+                                 {'width': 0, 'cost': 1 + sum(abs(x) for x in sh)}))
     pairs = [('track.append', 'msg.time='), ('tracks.append', 'track.append'), ('add_track', 'track.append'),
              ('msg.time=', 'ticks_per_beat='), ('del tracks[i]', 'tracks.append'), ('tempo=', 'track.insert')]
     if tier != 'quick':
